@@ -271,7 +271,9 @@ struct PullAlgo {
     Bag matched;
     Bag otherMatched;
     uint64_t size  = graph.size();
-    uint64_t delta = graph.size() / 25;
+    // at least one node per round, otherwise graphs with fewer than 25 nodes
+    // never make progress
+    uint64_t delta = std::max<uint64_t>(graph.size() / 25, 1);
 
     Graph::iterator ii = graph.begin();
     Graph::iterator ei = graph.begin();
